@@ -37,7 +37,7 @@ func c22Names(thorough bool) []string {
 		out = append(out, sb.String())
 		return true
 	})
-	out = append(out, "", "..", "a/..", "a/../b", "a/0", "t/partitions/0", "a/partitions/0/next_offset", "a/config", "a:0", "a:1", "a:b", "A", "a_b", "a-b", "a.b",
+	out = append(out, "", "..", "a/..", "a/../b", "a/0", "t/partitions/0", "a/partitions/0/next_offset", "a/config", "a:0", "a:1", "a:b", "A", "a_b", "a-b", "a.b", "a.kfs", "a.index", ".kfs", ".index", "a.kfs.index", "a.index.kfs", "segment-0", "a.kfst",
 		strings.Repeat("a", 249), strings.Repeat("a", 250), "a\x00b", "a\nb", "é")
 	return out
 }
